@@ -137,6 +137,19 @@ func tuplePool(rng *rand.Rand, arity, size int) [][]string {
 				pool = append(pool, u, w)
 			}
 		}
+		if arity >= 2 && rng.Intn(3) == 0 {
+			// escape-byte siblings: (a+esc, b+sep+c) vs (a+sep+b+esc, c) collide when the escape byte itself is not escaped
+			i := rng.Intn(arity - 1)
+			if tys[i] == 0 && tys[i+1] == 0 {
+				a, b, c2 := []string{"x", ""}[rng.Intn(2)], []string{"y", "", "\\"}[rng.Intn(3)], []string{"z", ""}[rng.Intn(2)]
+				sep := []string{"|", "\x1f"}[rng.Intn(2)]
+				u := append([]string(nil), t...)
+				w := append([]string(nil), t...)
+				u[i], u[i+1] = valTok(a+"\\", true), valTok(b+sep+c2, true)
+				w[i], w[i+1] = valTok(a+sep+b+"\\", true), valTok(c2, true)
+				pool = append(pool, u, w)
+			}
+		}
 		if arity >= 1 && rng.Intn(4) == 0 {
 			// NULL vs empty string vs the text of the NULL markers
 			i := rng.Intn(arity)
